@@ -320,7 +320,7 @@ def checked_before_trusted(p, rep, rid, f, require_type_guard=None, optional=Fal
 
 def r3(p, rep):
     rep.rule("C13.R3", "factory output is checked before it is trusted", "T-MPT (dominators on the value pipeline)", floor=3)
-    f = common.inlined_view(p, p.func("_assert_output", "adapter.namedtensor_calltensorfactory"), "einx._src.adapter")
+    f = common.inlined_view(p, p.func("_assert_output", "adapter.namedtensor_calltensorfactory"), "einx._src.adapter", keep_loops=True)
     # the type check may be written `if T is not None: assert_(..)` (a shared helper with an optional type): it is
     # skipped only when T - here always the factory's expected type - is None
     checked_before_trusted(p, rep, "C13.R3", f, require_type_guard="expected_type")
